@@ -1,18 +1,25 @@
-"""C07 configuration for ./check (see checks/propcfg.py for the keys)."""
+"""C07 configuration for ./check (keys: see checks/propcfg.py)."""
 CFG = {
     "modules": ["VaxisModel.Props.C07"],
-    "extractors": ["C07"],
-    "drivers": ["C07"],
+    "extractors": ["C07", "C04"],
+    "drivers": ["C07", "C07caps"],
     "trivial_prefix": ("id:",),
-    "rule": "asIndex: default + all 256 indexed colours, every palette colour, 23^3 boundary channel "
-            "values, random direct colours (quick) / all 2^24 direct colours (thorough); non-trivial = a "
-            "direct (RGB-flag) colour, distinct by colour value",
-    "trusted_base": ["float64 distance step modelled by exact integer score ×10^4 (DESIGN §3.5); "
-                     "compared by score of the chosen entry"],
-    "level_text": "Colour fallback: theorems asIndex_nearest / asIndex_id / asIndex_params proved for every 32-bit colour value "
-                  "over the palette regenerated from color.go (proved equal to the xterm formula palette). Other clauses of C07 "
-                  "(capability gating, width method) are being added; see level_note.",
-    "level_note": "Proved: nearest-entry for all colours (integer model). Modelled not verified: float64 rounding (validated on all 2^24 colours "
-                  "in the thorough tier by comparing scores). Model tied to source by Gen/Palette.lean (regenerated) and VerifAsIndex correspondence.",
-    "assumptions": ["IEEE-754 double rounding error ≪ 1e-4 for channel differences ≤ 255"],
+    "rule": "C07: asIndex on default + all 256 indexed colours, every palette colour, 23^3 boundary channel values, random direct "
+            "colours (quick) / all 2^24 direct colours (thorough); C07caps: real vaxis.New on the fake console for advertised "
+            "capability subsets (3000 random + the cursor-in-column-2 scenarios in quick, all 2^16 subsets in thorough), detected "
+            "flags and Can* accessors, RenderedWidth of 14 graphemes under the detected method; non-trivial = a direct colour / a caps "
+            "or width line; distinct by op line",
+    "trusted_base": ["float64 distance step modelled by exact integer score x10^4 (DESIGN §3.5); compared by score of the chosen entry",
+                     "uniseg.StringWidth / runewidth.RuneWidth are parameters (the three candidate measurements are computed by the harness)",
+                     "renderer and lifecycle models are those of C01/C04 (tied to the code by their correspondence checks)"],
+    "level_text": "Proved: asIndex returns a nearest palette entry 16..255 for every direct colour (palette regenerated from color.go = xterm "
+                  "formula palette); render_gated: every token of every frame is baseline or allowed by the capability set (no direct-colour SGR "
+                  "without RGB, no 4:n/58/59 without styled underlines, no OSC 66 / 2026 unless advertised) for all grids and styles; "
+                  "lifecycle_gated: by kernel evaluation over all 2^9 guard assignments of the lists regenerated from vaxis.go, start-up after "
+                  "DA1, Suspend and Resume write only baseline or advertised vocabulary; width_method. Capability detection (flags = replies) is "
+                  "checked on the real New() for capability subsets.",
+    "level_note": "Modelled not verified: float64 rounding (validated on all 2^24 colours in thorough); uniseg/runewidth; the New() event loop and "
+                  "reply decoding are checked dynamically against the specification 'flag iff advertising reply' (their model lives in C03).",
+    "assumptions": ["IEEE-754 double rounding error << 1e-4 for channel differences <= 255",
+                    "environment overrides (COLORTERM, VAXIS_FORCE_*) are unset: they are configuration, not terminal advertisement"],
 }
